@@ -199,8 +199,96 @@ func runC12(c *fw.Ctx, cs fw.Case) {
 			rc := &recipes[[]int{0, 3, 0, 1, 2}[r.Intn(5)]]
 			h, tag := c11Root(r, i+cs.Idx)
 			asyncHalt(c, r, rc, h, tag)
+			if i%2 == 0 {
+				asyncEngineHalt(c, r, rc, h, tag)
+			}
 		}
 	}
+}
+
+// asyncEngineHalt: the same through the engine's API with two callers: while one caller's Halt waits for the
+// (parked) search to unwind, another caller's Analyze must not get a new search started on the same table,
+// noise source and evaluator: "leaves nothing behind" includes the search itself.
+func asyncEngineHalt(c *fw.Ctx, r *rand.Rand, rc *recipe, h gen.Hist, tag string) {
+	ctx := context.Background()
+	var gate *gateEval
+	opts, _ := recipeOptions(r, rc)
+	e := rc.newEngine(ctx, opts, 0, func(ev eval.Evaluator) eval.Evaluator { gate = newGate(ev); return gate })
+	if e.Reset(ctx, h.Start.FEN()) != nil {
+		return
+	}
+	for _, m := range h.Moves {
+		if e.Move(ctx, m.String()) != nil {
+			return
+		}
+	}
+	if fp := h.Final(); len(fp.LegalMoves()) == 0 {
+		return
+	}
+	what := fmt.Sprintf("engine %s options %v %s (%s)", rc.name, opts, histDesc(h), tag)
+	blocked := gate.arm(1 + r.Int63n(40))
+	out, err := e.Analyze(ctx, searchctl.Options{DepthLimit: lang.Some(uint(0))})
+	if err != nil {
+		return
+	}
+	go func() {
+		for range out {
+		}
+	}()
+	select {
+	case <-blocked:
+	case <-time.After(10 * time.Second):
+		gate.open()
+		e.Halt(ctx)
+		return // ended or never evaluated that often: nothing to observe
+	}
+	haltDone := make(chan struct{})
+	go func() { e.Halt(ctx); close(haltDone) }()
+	time.Sleep(time.Duration(200+r.Intn(800)) * time.Microsecond)
+	type res struct {
+		out <-chan search.PV
+		err error
+	}
+	second := make(chan res, 1)
+	go func() {
+		o, err := e.Analyze(ctx, searchctl.Options{DepthLimit: lang.Some(uint(1))})
+		second <- res{o, err}
+	}()
+	c.Eval(1)
+	c.Count("async_engine_halts", 1)
+	early := false
+	select {
+	case x := <-second:
+		// (refused with "already active" is fine: the second caller was served before the halting one)
+		if x.err == nil {
+			early = true
+			c.Violate("halt:successor-overlaps", "Analyze from a second caller was accepted while the search being halted was still inside an evaluation: a new search runs beside it: %s", what)
+		}
+		second <- x
+	case <-haltDone:
+		early = true
+		c.Violate("halt:handback-async", "Engine.Halt returned while the search was still inside an evaluation: %s", what)
+	case <-time.After(15 * time.Millisecond):
+	}
+	gate.open()
+	select {
+	case <-haltDone:
+	case <-time.After(60 * time.Second):
+		if !early {
+			c.Violate("halt:hang", "Engine.Halt did not return within 60 s after the evaluation gate opened: %s", what)
+		}
+		return
+	}
+	select {
+	case x := <-second:
+		if x.err == nil {
+			for range x.out {
+			}
+		}
+	case <-time.After(60 * time.Second):
+		c.Violate("halt:hang", "Analyze after a completed Halt did not return within 60 s: %s", what)
+	}
+	e.Halt(ctx)
 }
 
 var refsearchCaptures = func(ctx context.Context, b *board.Board) (board.MovePriorityFn, board.MovePredicateFn) {
@@ -330,6 +418,21 @@ func asyncHalt(c *fw.Ctx, r *rand.Rand, rc *recipe, h gen.Hist, tag string) {
 	halted := make(chan search.PV, 1)
 	go func() { halted <- handle.Halt() }()
 	time.Sleep(time.Duration(r.Intn(300)) * time.Microsecond)
+	if r.Intn(2) == 0 {
+		// a second caller halts while the first is still waiting for the (parked) search to unwind: it must
+		// wait too, for the board is not handed back before the search goroutine has ended
+		second := make(chan search.PV, 1)
+		go func() { second <- handle.Halt() }()
+		c.Count("async_overlapping_halts", 1)
+		select {
+		case <-second:
+			if d := adapt.TakeSnap(b).Diff(before); d != "" {
+				c.Violate("halt:handback-async", "a second, overlapping Halt returned while the halted search was still inside an evaluation, the board not yet handed back (%s): %s", d, what)
+			}
+		case <-time.After(15 * time.Millisecond):
+		}
+		defer func() { go func() { <-second }() }()
+	}
 	gate.open()
 	var final search.PV
 	select {
@@ -390,7 +493,7 @@ func init() {
 			return l
 		},
 		Floors: func(string) map[string]int64 {
-			return map[string]int64{"halts": 5000, "followups": 2000, "searches_fully_enumerated": 10, "halts_minimax": 500, "halts_quiet": 200, "async_halts": 100, "async_followups": 40, "depth0_searches": 3}
+			return map[string]int64{"halts": 5000, "followups": 2000, "searches_fully_enumerated": 10, "halts_minimax": 500, "halts_quiet": 200, "async_halts": 100, "async_followups": 40, "depth0_searches": 3, "async_overlapping_halts": 30, "async_engine_halts": 20}
 		},
 		Run: runC12,
 	})
